@@ -48,7 +48,7 @@ REAL_VS_STUB = {
 FAULT_PROBES = {"eof_at_line_boundary": "eof_at_line_boundary", "eof_inside_line": "eof_inside_line_mid", "eof_inside_final_token": "eof_inside_final_token",
                 "eof_at_molecule_boundary": "eof_at_molecule_boundary", "drop_line": "drop_line", "dup_line": "dup_line", "corrupt_numeric": "corrupt_numeric",
                 "corrupt_count": "corrupt_count", "corrupt_tag": "corrupt_tag", "corrupt_byte_invalid_utf8": "corrupt_byte"}
-PROBES = ["eof_at_line_boundary", "eof_inside_final_token", "eof_inside_line_mid", "eof_at_molecule_boundary", "drop_line", "dup_line",
+PROBES = ["eof_inside_attribute_record", "eof_at_line_boundary", "eof_inside_final_token", "eof_inside_line_mid", "eof_at_molecule_boundary", "drop_line", "dup_line",
           "corrupt_numeric", "corrupt_count", "corrupt_tag", "corrupt_byte", "path_entry_used", "rejected_with_exception", "returned_strict_prefix", "returned_all_unchanged",
           "stream_channel_used", "generator_entry_partial_then_exception"]
 
@@ -113,6 +113,29 @@ def _build_generated():
 
     out["gen_extra_blocks.mol2"] = ("mol2", with_extra(water, "before_atom") + with_extra(ethane, "between") + with_extra(hcl, "end"))
     out["gen_confs_comment.mol2"] = ("mol2", "".join(with_extra(m, "before_atom") for m in (water, w2, w3)))
+    # attribute blocks (formal charges, free-form atom / bond attributes) AFTER the bond block, i.e. as the last records of
+    # their molecule: the only thing that ends such a block is the next @<TRIPOS> tag
+    def nocomment(text):
+        # (the attribute loops of the reader do not skip comment lines: the next block starts right at its MOLECULE tag)
+        return "".join(ln for ln in text.splitlines(keepends=True) if not ln.startswith("#"))
+
+    def with_unity(m, atom_attrs, bond_attrs):
+        lines = nocomment(m.dumps_mol2()).splitlines()
+        if atom_attrs:
+            lines.append("@<TRIPOS>UNITY_ATOM_ATTR")
+            for idx, kv in atom_attrs:
+                lines.append(f"{idx} {len(kv)}")
+                lines += [f"{k} {v}" for k, v in kv]
+        if bond_attrs:
+            lines.append("@<TRIPOS>UNITY_BOND_ATTR")
+            for idx, kv in bond_attrs:
+                lines.append(f"{idx} {len(kv)}")
+                lines += [f"{k} {v}" for k, v in kv]
+        return "\n".join(lines) + "\n"
+
+    out["gen_unity_last.mol2"] = ("mol2", with_unity(water, [(1, [("charge", "-1")]), (2, [("charge", "1"), ("origin", "fitted")])], [])
+                                  + with_unity(ethane, [(1, [("charge", "1")])], [(1, [("kind", "rotor")]), (3, [("kind", "stiff"), ("w", "0.5")])])
+                                  + nocomment(hcl.dumps_mol2()))
     out["gen_mixed.xyz"] = ("xyz", "".join(m.dumps_xyz() for m in (water, ethane, hcl)))
     out["gen_edge.xyz"] = ("xyz", "".join(m.dumps_xyz() for m in (ne, water, hcl)))
     out["gen_confs.xyz"] = ("xyz", "".join(m.dumps_xyz() for m in (water, w2, w3)))
@@ -227,12 +250,14 @@ def _sig(m):
     atoms = []
     ch = getattr(m, "atomic_charges", None)
     for i, a in enumerate(m.atoms):
-        atoms.append((a.element.z, a.label, str(a.atype), str(a.geom), _f(m.coords[i]), None if ch is None else float(ch[i])))
+        atoms.append((a.element.z, a.label, str(a.atype), str(a.geom), _f(m.coords[i]), None if ch is None else float(ch[i]),
+                      getattr(a, "formal_charge", None), tuple(sorted((str(k), str(v)) for k, v in (getattr(a, "attrib", None) or {}).items()))))
     bonds = []
     if hasattr(m, "bonds"):
         idx = {a: i for i, a in enumerate(m.atoms)}
         for b in m.bonds:
-            bonds.append((idx[b.a1], idx[b.a2], str(b.btype), float(b.order) if hasattr(b, "order") else None))
+            bonds.append((idx[b.a1], idx[b.a2], str(b.btype), float(b.order) if hasattr(b, "order") else None,
+                          tuple(sorted((str(k), str(v)) for k, v in (getattr(b, "attrib", None) or {}).items()))))
     return (getattr(m, "name", None), tuple(atoms), tuple(bonds))
 
 
@@ -245,6 +270,13 @@ def _ens_sigs(ens):
                       for i, a in enumerate(ens.atoms))
         out.append((ens.name, atoms, bonds))
     return out
+
+
+def _core(sig):
+    """A molecule signature without the OPTIONAL content (formal charges and free-form atom / bond attributes, which live in
+    blocks of their own that no count announces)."""
+    name, atoms, bonds = sig
+    return (name, tuple(a[:6] for a in atoms), tuple(b[:4] for b in bonds))
 
 
 _REF = {}
@@ -267,6 +299,7 @@ def _annotate(fmt, text):
     pos = 0
     if fmt == "mol2":
         sec = "PRE"
+        unity_left = 0
         blocks_last = set()
         last_content = None
         for i, ln in enumerate(lines):
@@ -276,9 +309,21 @@ def _annotate(fmt, text):
                 if m[1] == "MOLECULE" and last_content is not None:
                     blocks_last.add(last_content)
                 sec = m[1]
+                unity_left = 0
                 kind = "tag:" + sec
             elif sec == "MOLECULE":
                 kind = "header"
+            elif sec.startswith("UNITY_") and s and not s.startswith("#"):
+                # attribute blocks are sequences of records: "<index> <n>" followed by n "<name> <value>" lines
+                if unity_left <= 0:
+                    kind = sec + ":rec"
+                    try:
+                        unity_left = int(s.split()[1])
+                    except (IndexError, ValueError):
+                        unity_left = 0
+                else:
+                    kind = sec + ":attr"
+                    unity_left -= 1
             else:
                 kind = sec
             if s and not s.startswith("#"):
@@ -323,7 +368,7 @@ def trunc_offsets(name):
         for (s, e, kind, is_last) in ann:
             offs.add(s)
             offs.add(e)
-            if is_last:
+            if is_last or kind.endswith((":rec", ":attr")):
                 offs.update(range(s, e + 1))
         offs.discard(len(text))  # the complete file is not a damaged input
         _TRUNC[name] = sorted(offs)
@@ -463,7 +508,11 @@ def _gen_corrupt(r, fmt, lines, ann):
 
 
 # ---------------------------------------------------------------------------- running
-def _judge(res, name, fmt, entry, text, dmg, fault_class, section, detail_fault):
+def _judge(res, name, fmt, entry, text, dmg, fault_class, section, detail_fault, strict_optional=False):
+    """strict_optional: the damage is an end of data INSIDE a record of an attribute block (the record announces more lines
+    than there are) - then the optional content counts too.  Everywhere else optional content is not compared: a lost,
+    shortened or re-attributed optional block (cut at a record boundary, damaged or lost tag of such a block) is itself a
+    well-formed file, which no reader can tell from an undamaged one."""
     ref_exc, ref = _ref_cache(name, entry)
     if ref_exc is not None:
         raise HarnessError(f"reference parse of {name} via {entry} raised {ref_exc!r}")
@@ -491,7 +540,7 @@ def _judge(res, name, fmt, entry, text, dmg, fault_class, section, detail_fault)
                     f"{name} via {entry}: {len(got)} molecules returned, the undamaged file has {len(ref)}; {detail_fault}")
         return
     for i, g in enumerate(got):
-        if g != ref[i]:
+        if (g != ref[i]) if strict_optional else (_core(g) != _core(ref[i])):
             what = _diff(g, ref[i])
             res.violate("partial-or-altered-molecule-returned", sigbase.format(clause="partial-molecule-returned"),
                         f"{name} via {entry}: molecule #{i} of {len(got)} returned{' (then ' + type(exc).__name__ + ')' if exc else ''} differs from the undamaged file's: {what}; {detail_fault}")
@@ -507,7 +556,7 @@ def _diff(g, r):
         return f"{len(g[1])} atoms instead of {len(r[1])}"
     for i, (a, b) in enumerate(zip(g[1], r[1])):
         if a != b:
-            fields = ["element", "label", "type", "geometry", "coords", "charge"]
+            fields = ["element", "label", "type", "geometry", "coords", "charge", "formal charge", "attributes"]
             for f, x, y in zip(fields, a, b):
                 if x != y:
                     return f"atom {i} {f} {x!r} != {y!r}"
@@ -537,7 +586,15 @@ def run_plan(plan, trace=False):
             res.stats["probe:eof_" + {"line-boundary": "at_line_boundary", "molecule-boundary": "at_molecule_boundary",
                                       "inside-final-token": "inside_final_token"}.get(cls, "inside_line_mid")] += 1
             nv = len(res.violations)
-            _judge(res, name, fmt, entry, text, text[:b], "eof-" + cls, section, f"end of data at byte {b} of {len(text)} ({cls}, in {section} line)")
+            strict = False
+            if fmt == "mol2" and b < len(text):
+                li = next(i_ for i_, a_ in enumerate(ann) if a_[0] <= b < a_[1])
+                k_ = ann[li][2]
+                strict = k_.endswith(":attr") or (k_.endswith(":rec") and b > ann[li][0])
+                if strict:
+                    res.stats["probe:eof_inside_attribute_record"] += 1
+            _judge(res, name, fmt, entry, text, text[:b], "eof-" + cls, section.split(":rec")[0].split(":attr")[0],
+                   f"end of data at byte {b} of {len(text)} ({cls}, in {section} line)", strict_optional=strict)
             for v in res.violations[nv:]:
                 v["hint"] = {"only": b}
             res.keys.append(f"{name}|{entry}|eof{b}")
